@@ -8,6 +8,8 @@ R2 checked arithmetic: every arithmetic operation on a value read from `Passkey.
 R3 reported = stored : on every path through the increment, the counter given to AuthenticatorData::new is the same value
                       term as the `counter` of the Passkey given to update_credential (reaching definitions, no later write).
 R4 increment by one  : the other operand of the increment is the constant 1.
+R6 store accepted    : an assertion is returned only through the success edge of update_credential's `?` (or the
+                      no-counter edge), so the reported value is the value the store accepted.
 R5 no counter, no rewrite: update_credential is only reachable through the `Some` edge of the stored counter; a missing
                       counter is encoded by unwrap_or_default (0).
 """
@@ -168,6 +170,11 @@ def run(chk):
             reported_some = flow.simplify_term(T2.operand(nt["args"][1], nb, "t"))
             chk.ob("R3 reported = stored", "R3|some-path", reported_some == stored_counter, where(ga, nb),
                    "reported (paths with a counter) = %s ; stored = %s" % (flow.term_str(reported_some), flow.term_str(stored_counter)))
+            # the incremented counter is always Some(..): an Option-returning increment (checked_add) stored as is turns
+            # the counter into None at u32::MAX, which is then reported as 0 (a smaller value) and rewrites the record
+            is_some = stored_counter[0] == "agg" and stored_counter[2] == "Some"
+            chk.ob("R2 checked arithmetic", "R2|Authenticator::get_assertion|incremented-counter-is-Some", is_some, where(ga, ub),
+                   "counter written back = %s%s" % (flow.term_str(stored_counter), "" if is_some else " — not a `Some(..)`: at u32::MAX the stored counter is removed and the assertion reports 0"))
             # the stored passkey is the credential with exactly that counter update
             okw = stored_whole[0] == "with" and any(pth == cpath[-1:] or pth == cpath for pth, v in stored_whole[2]) and len(stored_whole[2]) == 1
             chk.ob("R3 reported = stored", "R3|stored-is-credential-with-counter", okw, where(ga, ub),
@@ -178,6 +185,29 @@ def run(chk):
             base = stored_whole[1] if stored_whole[0] == "with" else stored_whole
             chk.ob("R5 no counter, no rewrite", "R5|none-path-reports-stored", reported_none == ("field", base, "counter"), where(ga, nb),
                    "reported (paths without counter) = %s" % flow.term_str(reported_none))
+    # R6: the reported counter equals what the store holds only if the store accepted it
+    from .c07 import try_of_await
+    aws = flow.awaits(ga)
+    upa = [a for a in aws if a.call is not None and names.call_is(a.call, "CredentialStore::update_credential")]
+    oks = [s["bb"] for s in flow.outcome_sites(ga) if s["kind"] == "Ok" and s["path"] == ()]
+    if upa and oks and len(ups) == 1:
+        tr = try_of_await(ga, upa[0], flow.DefUse(ga))
+        if tr is None:
+            chk.ob("R6 store accepted the reported value", "R6|get_assertion|update-result-propagated", False, where(ga, upa[0].call_bb),
+                   "update_credential's result does not reach a `?`: an assertion can report counter n+1 while the store still holds n (store failure), and the next assertion reports n+1 again")
+        else:
+            cut_edges = [(tr["switch_bb"], tr["continue_bb"])]
+            # assertions of credentials without a counter legitimately skip the update
+            for sb in range(len(ga.blocks)):
+                t = ga.term(sb)
+                if t and t["k"] == "switch":
+                    pl = flow.op_place(t["op"])
+                    d = flow.DefUse(ga).single_def(pl[0]) if pl and pl[1] == () else None
+                    if d and d[0] == "assign" and d[4]["k"] == "discr" and flow.norm_place(d[4]["place"])[1][-1:] == ("counter",):
+                        cut_edges.append((sb, flow.switch_edges(ga, sb).get("otherwise")))
+            ok = flow.cut_by_edges(ga, 0, oks, cut_edges)
+            chk.ob("R6 store accepted the reported value", "R6|get_assertion|update-result-propagated", ok, where(ga, upa[0].call_bb),
+                   "every Ok return passes the success edge of update_credential's `?` (or the no-counter edge): %s" % ok)
     # encoding of None as 0
     tv = p.method(adt_ident(p, "AuthenticatorData"), "to_vec")
     if chk.require("R5 no counter, no rewrite", "R5|to_vec", tv, "AuthenticatorData::to_vec", "AuthenticatorData::to_vec not found"):
@@ -193,9 +223,10 @@ def run(chk):
                     ok = True
         chk.ob("R5 no counter, no rewrite", "R5|None-encodes-as-zero", ok, where(tv), "absent counter is encoded through unwrap_or_default/unwrap_or(0): %s" % ok)
     chk.floor("R1", 3)
-    chk.floor("R2", 1)
+    chk.floor("R2", 2)
     chk.floor("R3", 2)
     chk.floor("R4", 1)
     chk.floor("R5", 3)
+    chk.floor("R6", 1)
     chk.assumptions = ["store implementations persist exactly the Passkey they are given (C05/C07 cover the shipped ones)",
                        "monotonicity over whole histories follows from R2-R5 per ceremony only for sequential use (C19 covers concurrency)"]
